@@ -709,12 +709,6 @@ func vC01DescentCase(rnd *rand.Rand, tr *vC01Trace, caseNo int) {
 	rec := map[string]any{"k": "descent:" + strings.Join(kinds, "+"), "coq": x.w.wrap(envCoq + body), "nontrivial": true, "desc": desc}
 	if goFail != "" {
 		rec["go_fail"] = goFail
-		// known finding rrsig-question-insecure-delegation, by what was OBSERVED: the question type was RRSIG, a secure cut
-		// was filed with an empty DS set, and no reply carried AD (what follows from the zone being taken as unsigned)
-		noAD := (out1 == nil || !out1.AuthenticatedData) && (out2 == nil || !out2.AuthenticatedData)
-		if qtype == dns.TypeRRSIG && emptySecureCut && noAD {
-			rec["fkey"] = "rrsig-question-insecure-delegation"
-		}
 	}
 	tr.emit(rec)
 	_ = caseNo
